@@ -5,7 +5,7 @@ import json, os, sys
 HERE = os.path.dirname(os.path.dirname(os.path.abspath(__file__)))
 sys.path.insert(0, HERE)
 from sa import wirecheck  # noqa: E402
-cur = wirecheck.current()
+cur = wirecheck.current(for_reference=True)
 with open(wirecheck.REF_PATH, "w") as f:
     json.dump(cur, f, indent=1, sort_keys=True)
 print("written", wirecheck.REF_PATH, len(cur), "methods")
